@@ -59,6 +59,7 @@ func (s *gstep) UnmarshalJSON(b []byte) error {
 type gscript struct {
 	ID    int     `json:"id"`
 	Sync  string  `json:"sync"`
+	NKeys int     `json:"nkeys"`
 	Steps []gstep `json:"steps"`
 }
 
@@ -681,7 +682,10 @@ func (g *genRun) stepMerge(until func(gate string) bool, max int) {
 
 func runScript(en *Env, sc *gscript, idx int, stats map[string]int) {
 	dir := en.FreshDir()
-	nkeys := 2
+	nkeys := sc.NKeys
+	if nkeys < 2 {
+		nkeys = 2
+	}
 	var u *h.Keys
 	if idx%4 == 3 {
 		u = h.TwinKeys(nkeys)
